@@ -50,8 +50,9 @@ theorem bound_ms (ha : AssetsOk ke ctx a) : (ms : Ms) → good ke ctx ms = true 
       · simp [Ph.size]; omega
       · simp [phSs]; omega
   | .rawPkH h, _ => by
+    have hu : (ctx == Ctx.bare || ctx == Ctx.legacy) = rawUnc ctx := rfl
     apply P_leafSB
-    · simp only [satDissat, extOf, pkH_sat]
+    · simp only [satDissat, extOf, hu, pkH_sat]
       intro w hw
       cases hc : ctx.sigType with
       | schnorr =>
@@ -62,7 +63,8 @@ theorem bound_ms (ha : AssetsOk ke ctx a) : (ms : Ms) → good ke ctx ms = true 
         | some v =>
           obtain ⟨pk, sz⟩ := v
           rw [hr] at hw; cases hw
-          obtain ⟨r1, r2⟩ := ha.rawSchnorr h pk sz hr
+          have r1 := ha.rawSchnorr h pk sz hr
+          have r2 := pkLen_le_rawKeySig ke ctx pk
           have hk : (keySig ctx false).2 = 66 := by simp [keySig, hc]
           refine ⟨_, rfl, by simp, ?_, fun _ => ?_⟩
           · simp [Ph.size]; omega
@@ -74,12 +76,12 @@ theorem bound_ms (ha : AssetsOk ke ctx a) : (ms : Ms) → good ke ctx ms = true 
         | none => rw [hr] at hw; cases hw
         | some pk =>
           rw [hr] at hw; cases hw
-          have r2 := ha.rawEcdsa h pk hr
+          have r2 := pkLen_le_rawKeySig ke ctx pk
           have hk : (keySig ctx false).2 = 73 := by simp [keySig, hc]
           refine ⟨_, rfl, by simp, ?_, fun _ => ?_⟩
           · simp [Ph.size]; omega
           · simp [phSs]; omega
-    · simp only [satDissat, extOf, pkH_dis]
+    · simp only [satDissat, extOf, hu, pkH_dis]
       intro w hw
       obtain ⟨w0, wp, h0, hp, rfl⟩ := combine_stack hw
       cases h0
@@ -87,7 +89,7 @@ theorem bound_ms (ha : AssetsOk ke ctx a) : (ms : Ms) → good ke ctx ms = true 
       | none => rw [hr] at hp; cases hp
       | some pk =>
         rw [hr] at hp; cases hp
-        have r2 := ha.rawPk h pk hr
+        have r2 := pkLen_le_rawKeySig ke ctx pk
         refine ⟨_, rfl, by simp, ?_, fun _ => ?_⟩
         · simp [Ph.size]; omega
         · simp [phSs]; omega
